@@ -70,7 +70,11 @@ def limit_programs():
     catch = lambda e: [S("handler-bind"), [[S("condition"), [S("lambda"), [S("c"), S("&rest"), S("r")], [S("probe"), Q(S("caught")), S("c")], Q(S("recovered"))]]], e]
     defs = [[S("defun"), S("r"), [S("n")], [S("probe"), Q(S("r")), S("n")], [S("if"), [S("<="), S("n"), 0], 0, [S("+"), 1, [S("r"), [S("-"), S("n"), 1]]]]],
             [S("defun"), S("lp"), [S("n")], [S("if"), [S("<="), S("n"), 0], [S("probe"), Q(S("done"))], [S("lp"), [S("-"), S("n"), 1]]]],
-            [S("defmacro"), S("cnt"), [S("n")], [S("if"), [S("<="), S("n"), 0], 7, [S("quasiquote"), [S("cnt"), [S("unquote"), [S("-"), S("n"), 1]]]]]]]
+            [S("defmacro"), S("cnt"), [S("n")], [S("if"), [S("<="), S("n"), 0], 7, [S("quasiquote"), [S("cnt"), [S("unquote"), [S("-"), S("n"), 1]]]]]],
+            # an expansion chain that alternates between two macros (and one that never ends): the bound counts expansions, not names
+            [S("defmacro"), S("ping"), [S("n")], [S("if"), [S("<="), S("n"), 0], 8, [S("quasiquote"), [S("pong"), [S("unquote"), [S("-"), S("n"), 1]]]]]],
+            [S("defmacro"), S("pong"), [S("n")], [S("if"), [S("<="), S("n"), 0], 9, [S("quasiquote"), [S("ping"), [S("unquote"), [S("-"), S("n"), 1]]]]]],
+            [S("defmacro"), S("ping-forever"), [], Q([S("pong-forever")])], [S("defmacro"), S("pong-forever"), [], Q([S("ping-forever")])]]
 
     def nestexpr(d):
         e = [S("probe"), Q(S("deep"))]
@@ -82,8 +86,10 @@ def limit_programs():
         out.append(("phys-r%d" % n, [defs, [[S("probe"), Q(S("v")), catch([S("r"), n])]], [[S("probe"), Q(S("again")), [S("r"), 1]]]]))
         out.append(("tail-lp%d" % n, [defs, [[S("probe"), Q(S("v")), catch([S("lp"), n])]], [[S("probe"), Q(S("again")), [S("lp"), 1]]]]))
         out.append(("macro-cnt%d" % n, [defs, [[S("probe"), Q(S("v")), catch([S("cnt"), n])]], [[S("probe"), Q(S("again")), [S("cnt"), 1]]]]))
+        out.append(("macro-pingpong%d" % n, [defs, [[S("probe"), Q(S("v")), catch([S("ping"), n])]], [[S("probe"), Q(S("again")), [S("ping"), 1]]]]))
         out.append(("nest-%d" % n, [defs, [[S("probe"), Q(S("v")), catch(nestexpr(n))]], [[S("probe"), Q(S("again")), nestexpr(1)]]]))
         out.append(("uncaught-r%d" % n, [defs, [[S("r"), n]], [[S("probe"), Q(S("again")), [S("r"), 1]]]]))
+    out.append(("macro-forever", [defs, [[S("probe"), Q(S("v")), catch([S("ping-forever")])]], [[S("probe"), Q(S("again")), [S("cnt"), 1]]]]))
     return out
 
 
@@ -154,8 +160,9 @@ def _run(V, work, tier):
         srcs = [P.src(f) for f in evals]
         for li, lc in enumerate(LIMIT_CFGS):
             cid = "%s/l%d" % (name, li)
-            recs.append(mach.prog_record(cid, evals, lc))
-            drv.append({"id": cid, "seq": srcs, "cfg": lc})
+            # (a generous step budget on both sides: a limit that has stopped working shows as a different error, not as a hang)
+            recs.append(mach.prog_record(cid, evals, dict(lc, budget=60000)))
+            drv.append({"id": cid, "seq": srcs, "cfg": dict(lc, maxsteps=60000)})
             meta[cid] = (name, "limits", lc)
     model, res = mach.run_machine(work, recs, timeout=3000)
     V.tlc(res, "Machine: %d (program, limit configuration) runs" % len(recs))
